@@ -193,7 +193,7 @@ def run_unit(arg):
                 if wfn is not None:
                     try:
                         wit = wfn()
-                        rp = native.replay(c, wit)
+                        rp = native.replay(c, wit, trusted_inputs=True)
                         if rp.get("confirmed") and clause in (rp.get("failed_clauses") or []):
                             ob.verdict, ob.model = "refuted", wit
                             ob.solver = "native-witness"
@@ -229,7 +229,7 @@ def run_unit(arg):
                     if wfn is not None:
                         try:
                             wit = wfn()
-                            rp = native.replay(c, wit)
+                            rp = native.replay(c, wit, trusted_inputs=True)
                             if rp.get("confirmed") and clause in (rp.get("failed_clauses") or []):
                                 d.update(model_inputs=wit, replay=rp, witness_confirmed=True, witness=wit)
                         except BaseException as e:  # noqa
@@ -286,7 +286,7 @@ def _try_contract_witnesses(c, d):
     for name in sorted(n for n in c.methods if n.startswith("witness_")):
         try:
             wit = c.native(name)()
-            rp = native.replay(c, wit)
+            rp = native.replay(c, wit, trusted_inputs=True)
         except BaseException:  # noqa
             continue
         from pyvc.ex_call import _refuted_known
@@ -608,7 +608,7 @@ def do_replay(path):
         print(json.dumps(data, indent=1)[:3000])
         print("no native replay possible for this obligation (no counter-model or not a function contract)")
         return 2
-    r = native.replay(c, data["model_inputs"])
+    r = native.replay(c, data["model_inputs"], trusted_inputs=True)
     print(json.dumps(r, indent=1, default=str))
     return 1 if r.get("confirmed") else 0
 
